@@ -189,3 +189,43 @@ PROPS["C19"] = dict(
     engines=[dict(name="seqcut")], trusted_base=SEQ_TB,
     assumptions=["fringe pops a maximal element (C11)"], rule=SEQ_RULE, trivial_tags=SEQ_TRIVIAL + ["many_polls"],
 )
+
+PROPS["C15"] = dict(
+    modules=["DdoModel.Props.C15"],
+    theorems=["Ddo.C15.unimpacted_stays_in_pool", "Ddo.C15.layer_only_impacted", "Ddo.C15.branchOn_keeps", "Ddo.C15.expandFold_keeps",
+              "Ddo.C01.process_inv", "Ddo.C01.complete_optimal"],
+    stated_not_proved=["Ddo.C15.pooled_eq_clean_opt (solvers with the pooled diagram terminate and return the optimum): false in the current code for long-arc models - open known finding D5 (C08 / C15 entries of KNOWN_FINDINGS.txt)",
+                       "pooled_* versions of the diagram contracts under SkipOk"],
+    level_text="The pooled diagram model reproduces the implementation exactly on every explored compilation with random irrelevance patterns (long arcs); solver tapes with the pooled diagram on long-arc models are validated by the solver model, with deterministic non-termination detection (pop cap) and default-completed replay of the reported solutions. Proved on the model for every input: a pool node not impacted by the layer's variable is skipped past the layer (stays in the pool, same state, value never decreases) and only impacted nodes form the layer; the solver-level optimality theorems (C01) are generic in the diagram and apply once the pooled diagram meets the contracts. It does not with long arcs: the checks rediscover D5 (the root is handed out by its own cut-set -> non-termination), recorded as an open known finding.",
+    level_note="Partial, with an open known finding: termination and optimality with long arcs do not hold in the current code (D5) and are therefore not theorems; what is proved is the skipping mechanism and the generic solver composition. Hang detection is a deterministic pop cap (50 000 pops for instances of at most 8 layers), not a wall clock.",
+    engines=[dict(name="mdd", label="mdd_pooled_long", args=["--pooled", "--long-arcs"]), dict(name="seq", label="seq_long", args=["--long-arcs"])],
+    trusted_base=SEQ_TB,
+    assumptions=["non-impacted states carry one neutral decision (the harness families), SkipOk"],
+    rule=SEQ_RULE + "; long-arc instances: depth-free TableDP with random irrelevance patterns (a state is impacted by a variable iff one of its base states is), all three diagram kinds (the plain diagrams expand every state on every variable), widths 1..3, cache on/off",
+    trivial_tags=SEQ_TRIVIAL + MDD_TRIVIAL,
+)
+
+PROPS["C07"] = dict(
+    modules=["DdoModel.Props.C07"],
+    theorems=["Ddo.C07.restricted_sound", "Ddo.C07.restricted_sound_detail", "Ddo.C07.exact_nodes_reachable", "Ddo.C07.exact_nodes_reachable_gen",
+              "Ddo.C07.exact_nodes_step", "Ddo.C07.root_reach", "Ddo.buildLoop_exact_reach", "Ddo.finalize_bestSol_eq"],
+    stated_not_proved=["restricted_exact_truthful (is_exact and OPT_N > lb -> best value = OPT_N) and exact_mode_opt (exact mode yields the optimum whatever the width): evaluated by phi on every explored compilation, not proved", "pooled diagram"],
+    level_text="For the clean diagram model (all compilation types, any cache / dominance configuration, any cutoff): every node flagged exact anywhere in the diagram is genuinely reached from the problem root by the decisions of its best-arc chain with exactly its value and depth (invariant of the whole compilation loop, 1150 lines of Lean); hence a restricted or exact compilation never reports a value above the sub-problem optimum: its best value is that of a genuinely feasible complete solution, and the reported best_solution is the root path followed by exactly those decisions (restricted_sound). The remaining clauses (an exact-claiming restricted diagram and exact mode reach the optimum) are evaluated as property predicates against the exact value-to-go of every explored instance. The model is tied to the code by complete observation of single compilations (engine mdd).",
+    level_note="Partial: optimality of exact / exact-claiming restricted diagrams is evaluated (phi), not proved; the pooled model is covered by correspondence + phi only. Hypothesis NoClamp: costs bounded so that isize saturation never fires on path values. MddExact.lean was produced by a delegated proof session and is checked by the same lake build / axiom audit.",
+    engines=MDD_ENGINES, trusted_base=MDD_TB,
+    assumptions=["NoClamp (no isize saturation on path values)", "the root sub-problem is exact (Reach)"],
+    rule=MDD_RULE, trivial_tags=MDD_TRIVIAL,
+)
+
+PROPS["C06"] = dict(
+    modules=["DdoModel.Props.C06", "DdoModel.Props.C07"],
+    theorems=["Ddo.C06.relaxed_ub", "Ddo.C06.relaxed_ub_static", "Ddo.C06.CounterA.counter", "Ddo.C06.CounterB.counter",
+              "Ddo.C07.exact_nodes_reachable"],
+    stated_not_proved=["relaxed_exact_truthful (a relaxed diagram that declares itself exact has the sub-problem optimum as best exact value) and feasibility of best_exact_solution through the exact-best-path case: evaluated by phi, not proved",
+                       "pooled diagram; compile_history_independent holds by construction of the model (a pure function of the input) and is watched by running 0..3 earlier compilations on the same object"],
+    level_text="relaxed_ub: for the clean diagram model (LEL and frontier), any well-formed model (Potential, RubOk, MergeOk in potential form), any width >= 1 and any incumbent, a relaxed compilation in isolation reports a best value >= the optimum of the sub-problem whenever that optimum beats the incumbent - proved by a coverage invariant over the whole compilation loop, merge (fresh and recycled merged node) and rough-bound pruning included (1440 lines of Lean), with a concrete non-vacuity instance in which a merge really happens. Two extra hypotheses turned out to be necessary and are proved necessary by counter-examples in Lean: AttMerge (the variable is selected by next_variable *before* the layer is squashed, so it must also suit the merged state - automatic for static variable orders: relaxed_ub_static) and o <= isize::MAX or lb < isize::MAX. The exactness-claim clauses are evaluated against the exact value-to-go on every explored compilation (phi), incl. an unobserved history of earlier compilations on the same object.",
+    level_note="Partial: the truthful-exactness clause is evaluated (phi), not proved; pooled model by correspondence + phi only. Hypotheses: Potential / RubOk / MergeOk / AttMerge, NoClamp (no isize saturation on path values), isolation (EmptyCache, no dominance rule). MddCover.lean was produced by a delegated proof session and is checked by the same lake build / axiom audit.",
+    engines=MDD_ENGINES, trusted_base=MDD_TB,
+    assumptions=["well-formed model in potential form (DESIGN.md 5.2)", "NoClamp", "AttMerge (dynamic variable orders)"],
+    rule=MDD_RULE, trivial_tags=MDD_TRIVIAL,
+)
